@@ -48,6 +48,10 @@ C16_Converges == l > 1 /\ Obs.ev = "converged" => Obs.d = Obs.ed /\ Obs.p = Obs.
 (* harmless meanwhile: whatever a mismatched decoder emits is never presented as valid by the harness' identity check *)
 (* (garbage reaching KCP is rejected there by conv/cmd/len validation; observed at session level by C01/C16 runs)    *)
 
+(* ---- C12 (FEC part): a "pair" line holds the normalised observations of the same step of the same history executed with the  *)
+(* encoder / decoder at position 0 (a) and just before the wrap value of the sequence ids (b)                                  *)
+C12_ShiftInvariant == l > 1 /\ Obs.ev = "pair" => Obs.a = Obs.b
+
 (* ---- C05 (decoder part): bounded state whatever arrives ---- *)
 C05_DecoderBounded == IsDecode => /\ Len(Obs.dec.sets) <= 5
                                    /\ \A i \in 1..Len(Obs.dec.sets) : Len(Obs.dec.sets[i].seqs) <= Obs.dec.d + Obs.dec.p
